@@ -3,8 +3,8 @@ Towards lexer locality (the step between `C19.tokens_independent` and the text-l
 texts in arbitrary spelling): on a text that ends with a line feed a scanner has decided what it
 returns before it could look past that line feed, so appending more input does not change it.
 Proved here for the building blocks — runs of bytes (`spanB_lf`), rune decoding (`decodeRune_lf`),
-skipping what a mode ignores (`skipR_lf`), comments (`scanComment_lf`) and the stream/function
-matcher (`matchSF_lf`); the remaining scanners and the induction over the steps are not done.
+skipping what a mode ignores (`skipR_lf`), comments (`scanComment_lf`), the stream/function
+matcher (`matchSF_lf`) and the wait-bit matcher (`matchW_lf`); the remaining scanners and the induction over the steps are not done.
 -/
 import SecsModel.Proofs.LexLayout
 import SecsModel.Proofs.NameRunes
@@ -246,6 +246,23 @@ theorem matchSF_lf (x b : Bytes) (h : EndsLF x) : matchSF (x ++ b) = matchSF x :
             rw [t1]
           · rfl
     · rfl
+
+theorem matchW_lf (x b : Bytes) (h : EndsLF x) : matchW (x ++ b) = matchW x := by
+  obtain ⟨pre, rfl⟩ := h
+  rcases pre with _ | ⟨c0, _ | ⟨c1, _ | ⟨c2, r⟩⟩⟩
+  · cases b <;> rfl
+  · cases b with
+    | nil => rfl
+    | cons b0 b' =>
+      simp only [List.cons_append, List.nil_append, matchW]
+      split <;> split <;> simp_all
+  · cases b with
+    | nil => rfl
+    | cons b0 b' =>
+      simp only [List.cons_append, List.nil_append, matchW]
+      split <;> split <;> simp_all
+  · simp only [List.cons_append, matchW]
+    split <;> split <;> simp_all
 
 end Lex
 end Secs
